@@ -369,6 +369,27 @@ def r7_enumeration(ctx, prog):
             r.violation(f['qname'], site, 'a token that failed to open is kept', file=f['file'], line=f['line'])
         else:
             r.ok(f['qname'], site, 'up to %d entries opened in %d unrolled rounds' % (most, 2), file=f['file'], line=f['line'])
+    # the same for the object files of a token: a file that cannot be parsed (left half-written by a crash) costs only itself
+    g = prog.fn('OSToken::index')
+    ctx.analysed(g)
+    for fails, label in ((1, 'every new object file is unreadable'), (0, 'every new object file is readable')):
+        cenv = {param_name(g, 0): 1, 'valid': 1, re.compile(r'refresh(@\d+)?\(tokenDir\)'): 1, re.compile(r'tokenObject\.valid|valid\(tokenObject\)'): 1,
+                re.compile(r'\w+\.valid$'): 1 - fails, re.compile(r'isValid(@\d+)?\(\w*[oO]bject\w*\)'): 1 - fails, re.compile(r'wasUpdated(@\d+)?\(gen\)'): 1}
+        o = Outcomes(g, prog, cenv=cenv, record_calls={'new ObjectFile'})
+        o.LOOP_ROUNDS = 2
+        o.CAP = 128
+        o.go()
+        r.paths += len(o.outcomes)
+        most = max([sum(1 for e in oc['events'] if e[0] == 'call' and e[1] == 'new ObjectFile') for oc in o.outcomes] or [0])
+        site = 'object file enumeration, %s' % label
+        if most == 0:
+            r.undecided(g['qname'], site, 'no object file is opened on any path', file=g['file'], line=g['line'])
+        elif most < 2:
+            r.violation(g['qname'], site, 'after the first new object file no further file is opened on any path: %s' % (
+                'one object file that cannot be parsed (cut short by a crash during a rewrite) hides every object whose file name sorts after it - keys the interrupted call never touched disappear' if fails else 'only one object is ever loaded'),
+                file=g['file'], line=g['line'])
+        else:
+            r.ok(g['qname'], site, 'up to %d files opened in 2 unrolled rounds' % most, file=g['file'], line=g['line'])
 
 
 def r8_one_rewrite_per_update(ctx, prog):
